@@ -584,7 +584,7 @@ def run(ctx):
     run_items(ctx, res, [('none', [], [('P', 0), ('T', 2), ('K', ()), ('K', ('a',))])])
     # (b) exhaustive small scopes, smallest first; stop growing once something failed that is
     # not a recorded known finding
-    maxn = 6 if thorough else 5 if ctx.deep else 4
+    maxn = 6 if thorough else 5
     done = -1
     nsig = 0
     for n in range(0, maxn + 1):
@@ -596,7 +596,7 @@ def run(ctx):
         run_items(ctx, res, items, parallel=True)
         done = n
     extra = {}
-    if (thorough or not ctx.deep) and not unlisted_failure(ctx, res):
+    if ctx.deep and not unlisted_failure(ctx, res):
         sigs = list(F.all_signatures(maxn + 1, NAMES))
         extra = {'parameters': maxn + 1, 'signatures': len(sigs), 'wrappers': ['plain', 'method']}
         run_items(ctx, res, [(w, s, None) for s in sigs for w in ('plain', 'method')],
